@@ -81,7 +81,7 @@ func mkResult(r Res) *benchfmt.Result {
 
 // a number, an optional metric or IEC prefix, and an optional unit word (letters and '/': "10Mbit",
 // "2Gbit/s", "3KiB"); the prefix is IEC exactly when an 'i' follows it directly
-var sufRe = regexp.MustCompile(`^([0-9]+(?:\.[0-9]*)?|\.[0-9]+)([kKMGTPEZY]i?)?[bB]?(?:[A-Za-z/]*)$`)
+var sufRe = regexp.MustCompile(`^[+]?([0-9]+(?:\.[0-9]*)?|\.[0-9]+)([kKMGTPEZY]i?)?[bB]?(?:[A-Za-z/]*)$`)
 
 // a text without any digit is not a number (the spellings of infinity and NaN are recognised before)
 var wordRe = regexp.MustCompile(`^[^0-9]+$`)
@@ -181,9 +181,36 @@ type flatField struct {
 	rank    map[string]int // first-observation ranks
 }
 
+// unesc turns the four-character sequences \xHH of a case's texts into the byte they name
+// (cases are stored as JSON, which cannot hold bytes that are not UTF-8).
+var escRe = regexp.MustCompile(`\\x[0-9a-f]{2}`)
+
+func unesc(s string) string {
+	if !strings.Contains(s, `\x`) {
+		return s
+	}
+	return escRe.ReplaceAllStringFunc(s, func(m string) string {
+		b, _ := strconv.ParseUint(m[2:], 16, 8)
+		return string([]byte{byte(b)})
+	})
+}
+
 func Check(c Case) (v vcase.Verdict) {
 	if len(c.Fields) == 0 || len(c.Stream) == 0 {
 		return
+	}
+	{
+		st := make([]Res, len(c.Stream))
+		for i, r := range c.Stream {
+			r.Name = unesc(r.Name)
+			cf := make([]Cfg, len(r.Cfg))
+			for j, kv := range r.Cfg {
+				cf[j] = Cfg{kv.K, unesc(kv.V)}
+			}
+			r.Cfg = cf
+			st[i] = r
+		}
+		c.Stream = st
 	}
 	text := exprText(c.Fields)
 	var pp benchproc.ProjectionParser
@@ -533,9 +560,10 @@ var numUnamb = []string{"12", "1.5", "2k", "1Mi", "3GiB", "1e3", "NaN", "inf", "
 	// no digit at all: not numbers, whatever dots and signs they contain
 	"...", "N.A.", ".", "-.", "..", "a.b", "-", "+", "e", ".k", "kB", "Ki",
 	// prefixed numbers followed by a unit word
-	"10Mbit", "10300k", "2Gbit/s", "1500Mbit/s", "5kitems", "3Kibit", "2Mibit", "1Gbps", "9Mbit", "9437184bit", "1200kbit"}
+	"+5K", "+2Ki", "+7", "+3kB", "10Mbit", "10300k", "2Gbit/s", "1500Mbit/s", "5kitems", "3Kibit", "2Mibit", "1Gbps", "9Mbit", "9437184bit", "1200kbit"}
 var numArb = []string{"x1", "1k2", "..", "1m", "v2.0", "1.2.3", "k", "0x10", "1_0", "٣"}
-var wordVals = []string{"linux", "darwin", "b", "a", "c", "Z", "é", "aa", "B"}
+// (\xHH stands for that byte: values that are not UTF-8 sort by their bytes like any other)
+var wordVals = []string{"linux", "darwin", "b", "a", "c", "Z", "é", "aa", "B", `caf\xe9`, `caf\xc3\xa9`, `\x80`, `caf\xff`, "café", `\xf0\x9f\x98\x80`, `z\xc3`}
 
 func genVal(t *rapid.T, order string) string {
 	switch order {
